@@ -10,6 +10,7 @@ import (
 
 	"github.com/plgd-dev/go-coap/v3/message"
 	"github.com/plgd-dev/go-coap/v3/message/codes"
+	"github.com/plgd-dev/go-coap/v3/message/pool"
 	coapSync "github.com/plgd-dev/go-coap/v3/pkg/sync"
 )
 
@@ -38,6 +39,8 @@ func (e c06Ev) desc() string {
 		return "tick"
 	case "tickx":
 		return fmt.Sprintf("tickx:%d", e.ID)
+	case "tickack":
+		return fmt.Sprintf("tickack:%d", e.ID)
 	case "piggy":
 		return fmt.Sprintf("piggy:%d:%d", e.ID, e.Code)
 	case "sep":
@@ -123,7 +126,17 @@ type c06Result struct {
 var perEventC06 func(e c06Ev)
 
 func runC06History(evs []c06Ev, ackMs, maxRt, nstart int) string {
-	mc := newMemConn(memConnOpts{getMID: 0x2000, queueSize: 16, maxRetransmit: uint32(maxRt), ackTimeout: time.Duration(ackMs) * time.Millisecond, nstart: uint32(nstart), limitTotal: 64, limitEndpoint: 64})
+	var after func(r *pool.Message)
+	if activeTracker != nil {
+		// C12: a response handed to a waiting caller is released by that caller BEFORE the receive path runs
+		// its own clean-up (the order in which a lost hijack flag would show as a double release)
+		after = func(r *pool.Message) {
+			if r.IsHijacked() {
+				activeTracker.waitReleased(r, 150*time.Millisecond)
+			}
+		}
+	}
+	mc := newMemConn(memConnOpts{getMID: 0x2000, queueSize: 16, maxRetransmit: uint32(maxRt), ackTimeout: time.Duration(ackMs) * time.Millisecond, nstart: uint32(nstart), limitTotal: 64, limitEndpoint: 64, afterHandler: after})
 	defer mc.close()
 	reqs := map[int]*c06Req{}
 	var order []int
@@ -145,12 +158,17 @@ func runC06History(evs []c06Ev, ackMs, maxRt, nstart int) string {
 				continue
 			}
 		}
-		if e.Kind == "sep" || e.Kind == "cancel" || e.Kind == "tickx" {
+		if e.Kind == "sep" || e.Kind == "cancel" || e.Kind == "tickx" || e.Kind == "tickack" {
 			if r := reqs[e.ID]; r == nil {
 				continue
 			}
 		}
-		if e.Kind == "tickx" {
+		if e.Kind == "tickack" {
+			if r := reqs[e.ID]; r.first == nil {
+				continue
+			}
+		}
+		if e.Kind == "tickx" || e.Kind == "tickack" {
 			// A housekeeping tick that has already fetched a pending entry when the caller of request e.ID
 			// cancels and returns: forced with the yield between Range's fetch and its callback. The
 			// execution must be equivalent to "Cancel id; Tick", which is how it is reported.
@@ -162,6 +180,11 @@ func runC06History(evs []c06Ev, ackMs, maxRt, nstart int) string {
 					return
 				}
 				fired = true
+				if e.Kind == "tickack" {
+					// the acknowledgement is processed between Range's fetch and its callback
+					mc.inject(encodeWire(2, 0, r.mid, nil, nil, nil))
+					return
+				}
 				r.cancel()
 				select {
 				case x := <-results:
@@ -202,7 +225,11 @@ func runC06History(evs []c06Ev, ackMs, maxRt, nstart int) string {
 				for _, x := range cancelRets {
 					rs = append(rs, fmt.Sprintf("(%d, %d, %d)", x.id, x.res, x.code))
 				}
-				items = append(items, fmt.Sprintf("HE (Cancel %d) [] [%s]", e.ID, strings.Join(rs, "; ")))
+				if e.Kind == "tickack" {
+					items = append(items, fmt.Sprintf("HE (Ack %d) [] [%s]", e.ID, strings.Join(rs, "; ")))
+				} else {
+					items = append(items, fmt.Sprintf("HE (Cancel %d) [] [%s]", e.ID, strings.Join(rs, "; ")))
+				}
 			}
 			items = append(items, fmt.Sprintf("HE Tick [%s] []", strings.Join(ems, "; ")))
 			if perEventC06 != nil {
@@ -232,6 +259,11 @@ func runC06History(evs []c06Ev, ackMs, maxRt, nstart int) string {
 				req.SetBody(bytes.NewReader(genBody(e.ID, e.PLen)))
 			}
 			go func(id int) {
+				defer func() {
+					if rec := recover(); rec != nil {
+						results <- c06Result{id, 9, 0} // the library panicked inside the call
+					}
+				}()
 				resp, err := mc.cc.Do(req)
 				respCode := 0
 				if err == nil {
@@ -400,6 +432,50 @@ func runC06History(evs []c06Ev, ackMs, maxRt, nstart int) string {
 	return sb.String()
 }
 
+// canonC06 returns the canonical histories that are always run (shared with C12).
+func canonC06() []c06Canon {
+	var out []c06Canon
+	add := func(evs []c06Ev, ack, maxrt, nst int) { out = append(out, c06Canon{evs, ack, maxrt, nst}) }
+	// canonical: full retransmission schedule with defaults, then exhaustion
+	full := []c06Ev{{Kind: "send", ID: 1, Tok: []byte{1, 2, 3, 4}}}
+	for i := 0; i < 6; i++ {
+		full = append(full, c06Ev{Kind: "age", Ms: 1600}, c06Ev{Kind: "tick"}, c06Ev{Kind: "age", Ms: 500}, c06Ev{Kind: "tick"})
+	}
+	full = append(full, c06Ev{Kind: "ack", ID: 1}, c06Ev{Kind: "cancel", ID: 1})
+	add(full, 2000, 4, 1)
+	add([]c06Ev{{Kind: "send", ID: 1, Tok: []byte{9}}, {Kind: "age", Ms: 2500}, {Kind: "tick"}, {Kind: "piggy", ID: 1, Code: 69}, {Kind: "age", Ms: 2500}, {Kind: "tick"}}, 2000, 4, 1)
+	add([]c06Ev{{Kind: "send", ID: 1, Tok: []byte{9}}, {Kind: "send", ID: 2, Tok: []byte{8}}, {Kind: "ack", ID: 1}, {Kind: "sep", ID: 1, Code: 69, PMID: 500}, {Kind: "rst", ID: 2}, {Kind: "age", Ms: 2500}, {Kind: "tick"}, {Kind: "cancel", ID: 2}}, 2000, 4, 1)
+	// two requests (one with a payload) due for retransmission in the same tick; the visiting order of
+	// the tick is Go's map order, so the scenario is repeated
+	for i := 0; i < 10; i++ {
+		first, second := c06Ev{Kind: "send", ID: 1, Tok: []byte{0x50, byte(i)}, PLen: 33}, c06Ev{Kind: "send", ID: 2, Tok: []byte{0x51, byte(i)}}
+		if i%2 == 1 {
+			first, second = c06Ev{Kind: "send", ID: 1, Tok: []byte{0x51, byte(i)}}, c06Ev{Kind: "send", ID: 2, Tok: []byte{0x50, byte(i)}, PLen: 33}
+		}
+		add([]c06Ev{first, second, {Kind: "age", Ms: 1500}, {Kind: "tick"}, {Kind: "age", Ms: 1000}, {Kind: "tick"}, {Kind: "ack", ID: 1}, {Kind: "cancel", ID: 2}, {Kind: "cancel", ID: 1}}, 1000, 2, 2)
+	}
+	// a tick that has already fetched the pending entry when the caller cancels and returns
+	for i := 0; i < 3; i++ {
+		add([]c06Ev{{Kind: "send", ID: 1, Tok: []byte{0x70, byte(i)}}, {Kind: "age", Ms: 2500}, {Kind: "tickx", ID: 1}, {Kind: "age", Ms: 2500}, {Kind: "tick"}}, 2000, 4, 1)
+	}
+	add([]c06Ev{{Kind: "send", ID: 1, Tok: []byte{0x71}}, {Kind: "send", ID: 2, Tok: []byte{0x72}}, {Kind: "age", Ms: 1500}, {Kind: "tick"}, {Kind: "age", Ms: 1000}, {Kind: "tickx", ID: 2}, {Kind: "cancel", ID: 1}}, 1000, 4, 2)
+	// an acknowledgement processed while a tick holds the (exhausted or still live) entry it has just fetched
+	add([]c06Ev{{Kind: "send", ID: 1, Tok: []byte{0x73}}, {Kind: "tickack", ID: 1}, {Kind: "tick"}, {Kind: "cancel", ID: 1}}, 2000, 0, 1)
+	add([]c06Ev{{Kind: "send", ID: 1, Tok: []byte{0x74}}, {Kind: "age", Ms: 2500}, {Kind: "tickack", ID: 1}, {Kind: "age", Ms: 2500}, {Kind: "tick"}, {Kind: "piggy", ID: 1, Code: 69}}, 2000, 4, 1)
+	// a request that had to queue for its NSTART slot while real time passed: its retransmission timer
+	// starts at its own first transmission, not when it was issued
+	for i := 0; i < 2; i++ {
+		add([]c06Ev{{Kind: "send", ID: 1, Tok: []byte{0x60, byte(i)}}, {Kind: "send", ID: 2, Tok: []byte{0x61, byte(i)}}, {Kind: "wait", Ms: 700},
+			{Kind: "ack", ID: 1}, {Kind: "age", Ms: 1500}, {Kind: "tick"}, {Kind: "age", Ms: 900}, {Kind: "tick"}, {Kind: "cancel", ID: 2}, {Kind: "cancel", ID: 1}}, 2000, 2, 1)
+	}
+	return out
+}
+
+type c06Canon struct {
+	evs             []c06Ev
+	ack, maxrt, nst int
+}
+
 // genC06History draws one history (shared with C12).
 func genC06History(rng *Rng) ([]c06Ev, int, int, int) {
 	ack := []int{1000, 2000}[rng.Intn(2)]
@@ -524,34 +600,8 @@ func runC06(a runArgs) error {
 		evs, ack, maxrt, nst := genC06History(rng)
 		emit(evs, ack, maxrt, nst)
 	}
-	// canonical: full retransmission schedule with defaults, then exhaustion
-	full := []c06Ev{{Kind: "send", ID: 1, Tok: []byte{1, 2, 3, 4}}}
-	for i := 0; i < 6; i++ {
-		full = append(full, c06Ev{Kind: "age", Ms: 1600}, c06Ev{Kind: "tick"}, c06Ev{Kind: "age", Ms: 500}, c06Ev{Kind: "tick"})
-	}
-	full = append(full, c06Ev{Kind: "ack", ID: 1}, c06Ev{Kind: "cancel", ID: 1})
-	emit(full, 2000, 4, 1)
-	emit([]c06Ev{{Kind: "send", ID: 1, Tok: []byte{9}}, {Kind: "age", Ms: 2500}, {Kind: "tick"}, {Kind: "piggy", ID: 1, Code: 69}, {Kind: "age", Ms: 2500}, {Kind: "tick"}}, 2000, 4, 1)
-	emit([]c06Ev{{Kind: "send", ID: 1, Tok: []byte{9}}, {Kind: "send", ID: 2, Tok: []byte{8}}, {Kind: "ack", ID: 1}, {Kind: "sep", ID: 1, Code: 69, PMID: 500}, {Kind: "rst", ID: 2}, {Kind: "age", Ms: 2500}, {Kind: "tick"}, {Kind: "cancel", ID: 2}}, 2000, 4, 1)
-	// two requests (one with a payload) due for retransmission in the same tick; the visiting order of
-	// the tick is Go's map order, so the scenario is repeated
-	for i := 0; i < 10; i++ {
-		first, second := c06Ev{Kind: "send", ID: 1, Tok: []byte{0x50, byte(i)}, PLen: 33}, c06Ev{Kind: "send", ID: 2, Tok: []byte{0x51, byte(i)}}
-		if i%2 == 1 {
-			first, second = c06Ev{Kind: "send", ID: 1, Tok: []byte{0x51, byte(i)}}, c06Ev{Kind: "send", ID: 2, Tok: []byte{0x50, byte(i)}, PLen: 33}
-		}
-		emit([]c06Ev{first, second, {Kind: "age", Ms: 1500}, {Kind: "tick"}, {Kind: "age", Ms: 1000}, {Kind: "tick"}, {Kind: "ack", ID: 1}, {Kind: "cancel", ID: 2}, {Kind: "cancel", ID: 1}}, 1000, 2, 2)
-	}
-	// a tick that has already fetched the pending entry when the caller cancels and returns
-	for i := 0; i < 3; i++ {
-		emit([]c06Ev{{Kind: "send", ID: 1, Tok: []byte{0x70, byte(i)}}, {Kind: "age", Ms: 2500}, {Kind: "tickx", ID: 1}, {Kind: "age", Ms: 2500}, {Kind: "tick"}}, 2000, 4, 1)
-	}
-	emit([]c06Ev{{Kind: "send", ID: 1, Tok: []byte{0x71}}, {Kind: "send", ID: 2, Tok: []byte{0x72}}, {Kind: "age", Ms: 1500}, {Kind: "tick"}, {Kind: "age", Ms: 1000}, {Kind: "tickx", ID: 2}, {Kind: "cancel", ID: 1}}, 1000, 4, 2)
-	// a request that had to queue for its NSTART slot while real time passed: its retransmission timer
-	// starts at its own first transmission, not when it was issued
-	for i := 0; i < 2; i++ {
-		emit([]c06Ev{{Kind: "send", ID: 1, Tok: []byte{0x60, byte(i)}}, {Kind: "send", ID: 2, Tok: []byte{0x61, byte(i)}}, {Kind: "wait", Ms: 700},
-			{Kind: "ack", ID: 1}, {Kind: "age", Ms: 1500}, {Kind: "tick"}, {Kind: "age", Ms: 900}, {Kind: "tick"}, {Kind: "cancel", ID: 2}, {Kind: "cancel", ID: 1}}, 2000, 2, 1)
+	for _, c := range canonC06() {
+		emit(c.evs, c.ack, c.maxrt, c.nst)
 	}
 	return e.Flush(a.out)
 }
